@@ -64,6 +64,21 @@ Theorem Compose_C04_manifest_key_is_C02_pp_key :
 Proof. exact in_manifest_C02. Qed.
 Print Assumptions Compose_C04_manifest_key_is_C02_pp_key.
 
+(* The request type the composition uses for C04's `Req` (hreq: digest, plusplus, language tag, arguments, extra hashes,
+   input path) is exactly what C02 hashes of a request: for EVERY C02 request r with a known language, rebuilding it
+   from its hashed view [req_of r] changes neither pre-image, hence neither key; and every Timestamp{seconds,
+   nanoseconds < 10^9} is [mt_of] of its nanosecond count, C04's one-number mtime. *)
+Theorem Compose_C04_hreq_view_faithful :
+  (forall (H : bytes -> bytes) (r : creq) (mt : N),
+      lang_known the_spec (lang r) = true -> mtime r = mt_of mt ->
+      let r' := mk_creq (req_of r) (env r) (pp r) (input r) (ignore_time r) (date r) (sde r) mt in
+      encode_c H the_spec r' = encode_c H the_spec r /\ encode_pp H the_spec r' = encode_pp H the_spec r /\
+      gated the_spec r' = gated the_spec r /\ KeyEnc.key H the_spec r' = KeyEnc.key H the_spec r /\
+      KeyEnc.pp_key H the_spec r' = KeyEnc.pp_key H the_spec r) /\
+  (forall sec nsec, nsec < ns -> mt_of (sec * ns + nsec) = (sec, nsec)).
+Proof. exact (conj hreq_view_faithful mt_of_surj). Qed.
+Print Assumptions Compose_C04_hreq_view_faithful.
+
 (* The hypothesis `pp_key_injective` of C04_mode_equivalence, at two requests, FROM C02_pp_encode_injective_canon:
    equal manifest keys give the same hashed request, the same allow-listed environment and the same input digest —
    under C02's wf_p of the two requests and collision-freeness of H on their three pairs of pre-images. *)
@@ -173,6 +188,24 @@ Theorem Compose_C09_history_transparent_closed :
 Proof. exact history_transparent_closed_b. Qed.
 Print Assumptions Compose_C09_history_transparent_closed.
 
+(* C09_repopulates without `consistent`: after the faults stop, a fault-free request re-populates and the next is a hit *)
+Theorem Compose_C09_repopulates_closed :
+  forall (H : bytes -> bytes) (base : N -> creq) (man : N -> N) (ppf : canon_p_t -> N -> pp_result)
+         (ccf : canon_c_t -> cc_result) (direct_mode : N -> bool) (lng : N -> Model.Stats.lang) (upd mok cab : N -> bool),
+    C02_world_ok H base man ppf ->
+    let w := world_of H base man ppf ccf direct_mode lng upd mok cab in
+    forall (st : Model.ReqSM.cstate) (t : N),
+      Proofs.ReqSM.Inv w st -> Proofs.ReqSM.sane (w t) -> Model.ReqSM.cs_ro st = false ->
+      Model.ReqSM.o_pp_status (w t) = 0 -> Model.ReqSM.o_c_status (w t) = 0 -> Model.ReqSM.o_cacheable (w t) = true ->
+      let '(st1, r1, _) := Model.ReqSM.request Model.ReqSM.no_faults Model.ReqSM.QCompile Model.ReqSM.CCDefault (w t) st in
+      let '(st2, r2, _) := Model.ReqSM.request Model.ReqSM.no_faults Model.ReqSM.QCompile Model.ReqSM.CCDefault (w t) st1 in
+      Model.ReqSM.kv_get (Model.ReqSM.o_key (w t)) (Model.ReqSM.cs_res st1)
+      = Some (Model.ReqSM.RGood (Model.ReqSM.o_c_stdout (w t)) (Model.ReqSM.o_c_stderr (w t))
+                                (Model.ReqSM.o_c_outputs (w t)))
+      /\ Proofs.ReqSM.transparent (w t) r1 /\ Proofs.ReqSM.is_hit_of (w t) r2 /\ Proofs.ReqSM.transparent (w t) r2.
+Proof. exact repopulates_closed_b. Qed.
+Print Assumptions Compose_C09_repopulates_closed.
+
 (* ====================================================================== C03 ⟵ C02 *)
 
 (* C03's hand-written allow-list of hashed variables is C02's translated CACHED_ENV_VARS of c.rs *)
@@ -208,6 +241,39 @@ Theorem Compose_C03_key_of_is_C02_key :
     /\ (Model.HitModel.fingerprint_of r = Model.HitModel.fingerprint_of r' -> canon_c the_spec c = canon_c the_spec c').
 Proof. exact key_of_is_C02_key. Qed.
 Print Assumptions Compose_C03_key_of_is_C02_key.
+
+(* C03_hit_after_store for this key function (C03's theorem holds for every key_of; this is the instance whose
+   hash function is the real one) *)
+Theorem Compose_C03_hit_after_store_C02_key :
+  forall (H : bytes -> bytes) (comp_digest : N -> bytes) (comp_plusplus : N -> bool) (comp_lang : N -> bytes)
+         (comp_extra : N -> list bytes) (pp_text : list N -> bytes)
+         (rust_key : Model.HitModel.fingerprint -> Model.Lru.key),
+    let kf := key_of_C02 H comp_digest comp_plusplus comp_lang comp_extra pp_text rust_key in
+    forall (compile : Model.HitModel.request -> N -> Model.HitModel.cresult) (c0 : N) (h0 : list Model.HitModel.event)
+           (r0 : Model.HitModel.request) (h : list Model.HitModel.event) (r1 : Model.HitModel.request)
+           (w1 : Model.HitModel.world) (o0 : Model.HitModel.outcome) (w3 : Model.HitModel.world)
+           (o1 : Model.HitModel.outcome),
+      let w0 := Model.HitModel.run_events kf compile (Model.HitModel.empty_world c0) h0 in
+      Model.HitModel.do_request kf compile w0 r0 = (w1, o0) -> Model.HitModel.oc_stored o0 = true ->
+      Model.HitModel.unrelated kf r0 h = true ->
+      let w2 := Model.HitModel.run_events kf compile w1 h in
+      Model.HitModel.cached kf w2 r0 = true ->
+      Model.HitModel.fingerprint_of r1 = Model.HitModel.fingerprint_of r0 ->
+      map (fun o => (Model.HitModel.o_role o, Model.HitModel.o_optional o)) (Model.HitModel.rq_outputs r1)
+      = map (fun o => (Model.HitModel.o_role o, Model.HitModel.o_optional o)) (Model.HitModel.rq_outputs r0) ->
+      NoDup (map Model.HitModel.o_role (Model.HitModel.rq_outputs r0)) ->
+      NoDup (map Model.HitModel.o_path (Model.HitModel.rq_outputs r1)) ->
+      (Model.HitModel.pp_hit kf w2 r1 = true
+       \/ Model.HitModel.cr_pre_ok (compile r1 (Model.HitModel.w_compiles w2)) = true) ->
+      Model.HitModel.do_request kf compile w2 r1 = (w3, o1) ->
+      Model.HitModel.oc_kind o1 = Model.HitModel.KHit /\ Model.HitModel.oc_compiled o1 = false /\
+      Model.HitModel.w_compiles w3 = Model.HitModel.w_compiles w2 /\
+      forall oa ob c, In oa (Model.HitModel.rq_outputs r0) -> In ob (Model.HitModel.rq_outputs r1) ->
+        Model.HitModel.o_role oa = Model.HitModel.o_role ob ->
+        Model.Lru.alookup (Model.HitModel.o_path oa) (Model.HitModel.w_ws w1) = Some c ->
+        Model.Lru.alookup (Model.HitModel.o_path ob) (Model.HitModel.w_ws w3) = Some c.
+Proof. exact hit_after_store_C02_key. Qed.
+Print Assumptions Compose_C03_hit_after_store_C02_key.
 
 (* ====================================================================== C06 ⟵ C07 *)
 
